@@ -97,9 +97,9 @@ namespace sqf::runtime
 #pragma region Runtime state handling
 
     private:
-        bool m_is_halt_requested;
-        bool m_is_exit_requested;
-        state m_state;
+        std::atomic<bool> m_is_halt_requested;
+        std::atomic<bool> m_is_exit_requested;
+        std::atomic<state> m_state;
         int m_exit_code;
         std::atomic<bool> m_run_atomic;
 
@@ -253,7 +253,7 @@ namespace sqf::runtime
 #pragma region Code Evaluation
 
         private:
-            bool m_evaluate_halt;
+            std::atomic<bool> m_evaluate_halt;
 
             void perform_evaluate()
             {
